@@ -559,7 +559,7 @@ def strategies():
     ctrl = st.one_of(
         st.fixed_dictionaries({"t": st.just("param"), "name": st.sampled_from(["px", "py", "pz"]), "val": scalar}),
         st.fixed_dictionaries({"t": st.just("include"), "path": paths}),
-        st.fixed_dictionaries({"t": st.just("lib"), "path": paths, "section": st.sampled_from(["fast", "tt", ""])}),
+        st.fixed_dictionaries({"t": st.just("lib"), "path": paths, "section": st.sampled_from(["fast", "tt", "", "TT", "tt_025C ", " ss", "f s"])}),
         st.fixed_dictionaries({"t": st.just("literal"), "text": st.one_of(st.sampled_from([".temp 25", "* hello", "simulator lang=spice", "  .ic v(a)=1 ", "\t* tab", "two\nlines\n", ""]), st.text(max_size=8))}),
         st.fixed_dictionaries({"t": st.just("meas"), "name": st.sampled_from(["m1", "delay", "gain"]), "expr": st.one_of(st.sampled_from(["trig_targ", "max(v(a))", "", " max(v(a)) ", "when v(a)=0.5 ", "\tx", "A*B"]), st.text(max_size=8)),
                                "analysis": st.one_of(st.sampled_from(["tran", "ac", "dc", "TRAN", "Ac", "my_an", " tran", ""]), st.fixed_dictionaries({"obj": st.fixed_dictionaries({"t": st.just("tran"), "name": st.just("mt"), "tstop": scalar, "tstep": st.none()})}))}),
